@@ -33,8 +33,8 @@ import (
 )
 
 // behaviours of the scripted upstream for one query
-var behaviours = []string{"valid", "nxdomain", "nodata", "servfail", "truncated", "wrongid", "wrongsrc", "notresp", "ra0", "garbage", "silence"}
-var answering = map[string]bool{"valid": true, "nxdomain": true, "nodata": true, "servfail": true}
+var behaviours = []string{"valid", "cname", "nxdomain", "nodata", "servfail", "truncated", "wrongid", "wrongsrc", "notresp", "ra0", "garbage", "silence"}
+var answering = map[string]bool{"valid": true, "cname": true, "nxdomain": true, "nodata": true, "servfail": true}
 
 type script struct {
 	u4, u6 string // UDP behaviour for the A / AAAA query
@@ -128,6 +128,14 @@ func buildReply(q []byte, b string, transport byte, ttl uint32) []byte {
 	bld.Question(question)
 	bld.StartAnswers()
 	rh := dnsmessage.ResourceHeader{Name: question.Name, Class: dnsmessage.ClassINET, TTL: ttl}
+	if b == "cname" {
+		// a CNAME with the scripted (small) TTL followed by an address record with a long TTL:
+		// the smallest TTL of the answer section bounds the cache lifetime
+		target := dnsmessage.MustNewName("cdn.example.net.")
+		bld.CNAMEResource(rh, dnsmessage.CNAMEResource{CNAME: target})
+		rh = dnsmessage.ResourceHeader{Name: target, Class: dnsmessage.ClassINET, TTL: 3600}
+		b = "valid"
+	}
 	if b == "valid" || b == "truncated" || usePoison {
 		if question.Type == dnsmessage.TypeA {
 			a := addr4(transport)
@@ -385,14 +393,14 @@ func checkLookup(sc script, o lookupOut) string {
 	check := func(fam string, got []netip.Addr, ub, tb string, ua, ta netip.Addr) string {
 		okSets := [][]netip.Addr{}
 		if sc.udp && answering[ub] {
-			if ub == "valid" {
+			if ub == "valid" || ub == "cname" {
 				okSets = append(okSets, []netip.Addr{ua})
 			} else {
 				okSets = append(okSets, nil)
 			}
 		}
 		if sc.tcp && (answering[tb] || tb == "truncated") {
-			if tb == "valid" || tb == "truncated" {
+			if tb == "valid" || tb == "cname" || tb == "truncated" {
 				okSets = append(okSets, []netip.Addr{ta})
 			} else {
 				okSets = append(okSets, nil)
@@ -541,7 +549,7 @@ func histScenario(param string) vsched.Scenario {
 				upd := func(b string, ttl uint32) {
 					var d int64
 					switch b {
-					case "valid", "nxdomain", "nodata":
+					case "valid", "cname", "nxdomain", "nodata":
 						d = int64(ttl) * 1e9
 					case "servfail":
 						d = 30 * 1e9
@@ -553,12 +561,13 @@ func histScenario(param string) vsched.Scenario {
 						bound = d
 					}
 				}
-				hasAns := op.sc.u4 == "valid" || op.sc.u6 == "valid"
+				isAns := func(b string) bool { return b == "valid" || b == "cname" }
+				hasAns := isAns(op.sc.u4) || isAns(op.sc.u6)
 				if hasAns {
-					if op.sc.u4 == "valid" {
+					if isAns(op.sc.u4) {
 						upd("valid", op.sc.ttl4)
 					}
-					if op.sc.u6 == "valid" {
+					if isAns(op.sc.u6) {
 						upd("valid", op.sc.ttl6)
 					}
 				} else {
@@ -781,7 +790,7 @@ func main() {
 	}
 	// part 2: TTL histories
 	var hists []string
-	kinds := []string{"valid", "nxdomain", "nodata", "servfail"}
+	kinds := []string{"valid", "cname", "nxdomain", "nodata", "servfail"}
 	for _, b4 := range kinds {
 		for _, b6 := range kinds {
 			for _, order := range []string{"46", "64"} {
